@@ -47,7 +47,7 @@ for s in seeds:
         b = sh('cargo build --release --offline 2>&1 | tail -3', cwd=ROOT + '/harness')
         if 'Finished' not in b.stdout:
             print(s, 'build failed', b.stdout); continue
-        results = meta.get('checks_run', {})
+        results = {}
         results[f'{prop} quick'] = run_check(prop, 'quick')
         detected = results[f'{prop} quick']['exit'] == 1
         if not detected and thorough_if_missed:
